@@ -391,10 +391,13 @@ Definition mode_dot_e (T M : tensor F) (mode : nat) (tr : bool) : res (tensor F)
    out-of-range mode raises IndexError *)
 Definition mode_dot_z (T M : tensor F) (z : Z) (tr : bool) : res (tensor F) :=
   match py_index (ndim T) z with Some k => mode_dot T M k tr | None => Err end.
-(* einsum_tenalg.mode_dot AS IT IS: the operand's labels are picked with tensor_modes[mode] (right for negative modes too) and a
-   vector pops result_modes[mode] (right), but the new label of a matrix operand is placed by the comparison `i == mode`,
-   which never holds for a negative mode: the result labels stay those of the tensor and the new label is summed out *)
+(* einsum_tenalg.mode_dot (repaired by /repo 92eb2a5): a negative mode in range is resolved first, like the core backend *)
 Definition mode_dot_e_z (T M : tensor F) (z : Z) (tr : bool) : res (tensor F) :=
+  match py_index (ndim T) z with Some k => mode_dot_e T M k tr | None => Err end.
+(* the rule BEFORE 92eb2a5 (kept for the regression Example): the operand's labels were picked with tensor_modes[mode] and a
+   vector popped result_modes[mode] (both right for negative modes), but the new label of a matrix operand was placed by the
+   comparison `i == mode`, never true for a negative mode: the result labels stayed those of the tensor, the new label was summed out *)
+Definition mode_dot_e_z_before_92eb2a5 (T M : tensor F) (z : Z) (tr : bool) : res (tensor F) :=
   match py_index (ndim T) z with
   | None => Err
   | Some k =>
@@ -429,22 +432,36 @@ Fixpoint mmd_e_loop (l : list triple) (skip : option nat) (tr : bool) (order : n
       | _ => Err
       end
   end.
-(* np.einsum raises when an operand's rank differs from its number of labels or when two axes with the same label differ in
-   size (an axis of size 1 would be broadcast by NumPy: outside the model, rejected here) *)
+(* all axes with the same label have the same size and every operand has one label per axis: then np.einsum broadcasts nothing *)
 Definition einsum_sizes_ok (ins : list (list nat)) (ts : list (tensor F)) : bool :=
   forallb (fun p => (length (fst p) =? ndim (snd p))
                     && forallb (fun q => snd q =? label_size ins ts (fst q)) (combine (fst p) (shape (snd p))))
           (combine ins ts).
+(* np.einsum itself: the size of a label is the largest size among its axes, an axis of size 1 under a longer label is
+   broadcast (its only entry is used for every value of the label), any other disagreement raises *)
+Definition label_full (ins : list (list nat)) (ts : list (tensor F)) (l : nat) : nat :=
+  fold_right Nat.max 0 (map snd (filter (fun p => Nat.eqb (fst p) l)
+                                        (concat (map (fun p => combine (fst p) (shape (snd p))) (combine ins ts))))).
+Definition einsum_bcast_ok (ins : list (list nat)) (ts : list (tensor F)) : bool :=
+  forallb (fun p => (length (fst p) =? ndim (snd p))
+                    && forallb (fun q => (snd q =? label_full ins ts (fst q)) || (snd q =? 1)) (combine (fst p) (shape (snd p))))
+          (combine ins ts).
+Definition bcast_operand (ins : list (list nat)) (ts : list (tensor F)) (ls : list nat) (t : tensor F) : tensor F :=
+  let full := map (label_full ins ts) ls in
+  if nat_list_eq (shape t) full then t
+  else tabulate full (fun idx => get d t (map (fun p => if snd p =? 1 then 0 else fst p) (combine idx (shape t)))).
+Definition einsum_np (ins : list (list nat)) (out : list nat) (ts : list (tensor F)) : res (tensor F) :=
+  if einsum_bcast_ok ins ts
+  then Ok (einsum ins out (map (fun p => bcast_operand ins ts (fst p) (snd p)) (combine ins ts))) else Err.
 Definition multi_mode_dot_e (T : tensor F) (Ms : list (tensor F)) (modes : option (list nat))
            (skip : option nat) (tr : bool) : res (tensor F) :=
   let order := ndim T in
   rbind (mmd_e_loop (sort_by_mode (zip3 Ms modes)) skip tr order
                     (mkS [] [] (seq 0 order) (order + 1) 0)) (fun st =>
-  if einsum_sizes_ok (seq 0 order :: s_ins st) (T :: s_ops st)
-  then Ok (einsum (seq 0 order :: s_ins st) (s_out st) (T :: s_ops st)) else Err).
+  einsum_np (seq 0 order :: s_ins st) (s_out st) (T :: s_ops st)).
 
-(* ------------------------------------------------------------------ multi_mode_dot with the modes as Python ints, AS IT IS *)
-(* both backends sort the operands by the RAW mode numbers and then use mode - decrement (resolved from the end when negative by
+(* ------------------------------------------------------------------ multi_mode_dot with the modes as Python ints *)
+(* both backends sort the operands by the mode numbers (raw before 92eb2a5, resolved since) and then use mode - decrement (resolved from the end when negative by
    NumPy / by Python list indexing), which presumes that a smaller mode number is an earlier mode of the tensor *)
 Definition ztriple := (tensor F * Z * nat)%type.
 Definition zt_mode (x : ztriple) : Z := snd (fst x).
@@ -463,7 +480,12 @@ Fixpoint mmd_loop_z (l : list ztriple) (skip : option nat) (tr : bool) (dec : Z)
       else rbind (mode_dot_z acc (if tr then conj_t (transpose_rev M) else M) (z - dec)%Z false)
                  (fun acc' => mmd_loop_z r skip tr (if ndim M =? 1 then (dec + 1)%Z else dec) acc')
   end.
+(* 92eb2a5: modes = [mode + order if -order <= mode < 0 else mode for mode in modes], before the sort *)
+Definition norm_mode (order : nat) (z : Z) : Z :=
+  if ((- Z.of_nat order <=? z) && (z <? 0))%Z then (z + Z.of_nat order)%Z else z.
 Definition multi_mode_dot_z (T : tensor F) (Ms : list (tensor F)) (ms : list Z) (skip : option nat) (tr : bool) : res (tensor F) :=
+  mmd_loop_z (sort_by_mode_z (zip3z Ms (map (norm_mode (ndim T)) ms))) skip tr 0%Z T.
+Definition multi_mode_dot_z_before_92eb2a5 (T : tensor F) (Ms : list (tensor F)) (ms : list Z) (skip : option nat) (tr : bool) : res (tensor F) :=
   mmd_loop_z (sort_by_mode_z (zip3z Ms ms)) skip tr 0%Z T.
 (* einsum backend: tensor_modes[mode] picks the operand's label; result_modes.pop(mode - decrement) / result_modes[mode - decrement] = new label *)
 Fixpoint mmd_e_loop_z (l : list ztriple) (skip : option nat) (tr : bool) (order : nat) (st : mmd_state) : res mmd_state :=
@@ -485,11 +507,12 @@ Fixpoint mmd_e_loop_z (l : list ztriple) (skip : option nat) (tr : bool) (order 
       | _, _ => match ndim M with 1 | 2 => Err | _ => Err end
       end
   end.
-Definition multi_mode_dot_e_z (T : tensor F) (Ms : list (tensor F)) (ms : list Z) (skip : option nat) (tr : bool) : res (tensor F) :=
+Definition multi_mode_dot_e_z_gen (norm : bool) (T : tensor F) (Ms : list (tensor F)) (ms : list Z) (skip : option nat) (tr : bool) : res (tensor F) :=
   let order := ndim T in
-  rbind (mmd_e_loop_z (sort_by_mode_z (zip3z Ms ms)) skip tr order (mkS [] [] (seq 0 order) (order + 1) 0)) (fun st =>
-  if einsum_sizes_ok (seq 0 order :: s_ins st) (T :: s_ops st)
-  then Ok (einsum (seq 0 order :: s_ins st) (s_out st) (T :: s_ops st)) else Err).
+  rbind (mmd_e_loop_z (sort_by_mode_z (zip3z Ms (if norm then map (norm_mode order) ms else ms))) skip tr order (mkS [] [] (seq 0 order) (order + 1) 0)) (fun st =>
+  einsum_np (seq 0 order :: s_ins st) (s_out st) (T :: s_ops st)).
+Definition multi_mode_dot_e_z := multi_mode_dot_e_z_gen true.
+Definition multi_mode_dot_e_z_before_92eb2a5 := multi_mode_dot_e_z_gen false.
 
 (* np.einsum operand checks: the weights need exactly one axis, of length R or 1 (broadcast); the mask one axis per matrix with
    the row counts (masks with broadcastable size-1 axes are outside the model: Err) *)
